@@ -11,7 +11,7 @@ Only numeric literals move through linear operators (dot, sum, index, transpose)
 import ast
 from fractions import Fraction
 
-from .astutil import dump, kwargs_of, strip_us
+from .astutil import dump, kwargs_of, strip_us, is_guard, is_diagnostic
 from .model import AnalysisError
 
 
@@ -279,14 +279,14 @@ class VN:
         if isinstance(st, ast.Expr):
             if isinstance(st.value, ast.Call) and isinstance(st.value.func, ast.Name) and st.value.func.id.startswith("check_"):
                 return None
-            if isinstance(st.value, ast.Constant):
+            if isinstance(st.value, ast.Constant) or is_diagnostic(st):
                 return None
             raise VNUnknown("expression statement %s" % dump(st)[:50])
         if isinstance(st, ast.Pass):
             return None
         if isinstance(st, ast.If) and isinstance(st.test, ast.Name) and st.test.id in self.flags:
             return self.run(st.body if self.flags[st.test.id] else st.orelse)
-        if self.inline and isinstance(st, ast.If) and not st.orelse and st.body and all(isinstance(b, ast.Raise) for b in st.body):
+        if is_guard(st):
             return None      # a guard whose only effect is to raise: not a normal exit
         raise VNUnknown("statement %s not straight-line" % type(st).__name__)
 
